@@ -92,7 +92,7 @@ func main() {
 
 			// The tree.
 			var tree *scanx.Node
-			opts := scanx.GenOpts{MaxDepth: 1 + r.Intn(3), MaxKids: 2 + r.Intn(5)}
+			opts := scanx.GenOpts{MaxDepth: 1 + r.Intn(3), MaxKids: 2 + r.Intn(5), SizeMismatch: true}
 			tmpfsRoot := false
 			switch k := r.Intn(100); {
 			case k < 4:
